@@ -239,6 +239,9 @@ class Gen:
             if chars == ['-'] or ''.join(chars).lower() in RESERVED or (chars[0] == '-' and len(chars) == 1):
                 continue
             break
+        for i in range(1, len(chars)):
+            if chars[i - 1] == '-' and chars[i].isdigit():
+                chars[i] = 'n'          # hyphen + digit, however the digit is written, is where a number starts: not this property's subject
         modes = ident_modes(r, chars)
         if chars[0] == '-' and modes[0] == 'lit' and len(chars) == 2 and chars[1] == '-' and modes[1] == 'lit':
             chars.append('a')
@@ -465,6 +468,8 @@ class Gen:
         if r.random() < 0.3:
             text += '\n   second line\n * third '
         self.note_chars(text.replace('\n', ''))
+        if text.startswith('#'):
+            text = ' ' + text           # `/*#` is C36's subject
         src = '/*%s%s*/' % (r.choice(['', ' ', '! ']), text)
         lines = 'multi-line' if '\n' in text or '\r' in text or '\f' in text else 'one-line'
         self.atoms.append({'kind': 'comment|%s|at-top-level' % lines, 'alone': src})
@@ -591,13 +596,13 @@ def round_trip(ctx, srcs):
         if st in ('timeout', 'crash', 'harness-error'):
             res[i] = ('skip', 'second_compile_' + st)
         elif st == 'panic':
-            res[i] = ('bad', 'panic', {'out1': out1[:600], 'panic': str(r.get('panic') or r.get('msg') or '')[:300]})
+            res[i] = ('bad', 'panic', {'out1': out1[:600], 'panic': str(r.get('panic') or r.get('msg') or '')[:300]}, out1)
         elif st == 'err':
-            res[i] = ('bad', 'rejected', {'out1': out1[:600], 'err': (r.get('err') or '')[:400]})
+            res[i] = ('bad', 'rejected', {'out1': out1[:600], 'err': (r.get('err') or '')[:400]}, out1)
         elif noblank(r.get('out', '')) == noblank(out1) and 'out_hex' not in r:
             res[i] = ('ok',)
         else:
-            res[i] = ('bad', diff_kind(out1, r.get('out', '')), {'out1': out1[:600], 'out2': r.get('out', '')[:600]})
+            res[i] = ('bad', diff_kind(out1, r.get('out', '')), {'out1': out1[:600], 'out2': r.get('out', '')[:600]}, out1)
     return res
 
 
@@ -619,6 +624,10 @@ def minimize(ctx, atom, first):
     res = first
     while len(idx) > 1:
         cands = [idx[:k] + idx[k + 1:] for k in range(len(idx))]
+        if not atom.get('q'):
+            # dropping a character must not put a digit right after a hyphen: that is a number, not an identifier
+            ch = atom['chars']
+            cands = [c for c in cands if not any(ch[c[j]] == '-' and ch[c[j + 1]].isdigit() for j in range(len(c) - 1))]
         rs = round_trip(ctx, [with_chars(atom, c) for c in cands])
         for c, r in zip(cands, rs):
             if r[0] == 'bad':
@@ -646,7 +655,7 @@ def isolate(ctx, case, observed, detail):
     res = cached_round_trip(ctx, [a['alone'] for a in atoms])
     for i, a in enumerate(atoms):
         # Sass passes an unquoted url() through as written; if the first compile did not, the case is not about reading back
-        if res[i][0] == 'bad' and 'must_contain' in a and a['must_contain'] not in res[i][2].get('out1', ''):
+        if res[i][0] == 'bad' and 'must_contain' in a and a['must_contain'] not in res[i][3]:
             ctx.stat('first_output_changed_the_url')
             res[i] = ('skip', 'first_output_changed_the_url')
     failing = [(a, r) for a, r in zip(atoms, res) if r[0] == 'bad']
@@ -690,6 +699,10 @@ def judge(ctx, case, res):
             ctx.seen('character_classes_in_' + ('strings' if 'string' in a['kind'] else 'identifiers'), cclass(c))
     if res[0] == 'ok':
         ctx.stat('round_trips_equal')
+        return
+    if any('must_contain' in a and a['must_contain'] not in res[3] for a in case.get('atoms', [])):
+        # Sass passes an unquoted url() through as written; the first compile did not: not a question of reading back
+        ctx.stat('first_output_changed_the_url')
         return
     ctx.stat('round_trips_failing')
     if case.get('atoms'):
